@@ -19,7 +19,7 @@ ASSUMPTIONS = [
     "not tested separately",
 ]
 REQUIRED_CLASSES = ["nontrivial", "vertex_in_first_3", "vertex_in_last_3", "vertex_outside", "jerk_zero",
-                    "T<=3", "loop_validated", "shortfall_nonzero", "same_profile_other_duration",
+                    "T<=3", "loop_validated", "same_profile_other_duration",
                     "end_rates_opposite_equal"]
 QUICK_SHARDS = 4
 
